@@ -107,6 +107,9 @@ def exec_doc(scn):
         meta.pop(k)
     if scn["variant"] % 5 == 1:
         meta["MapId"] = 31415
+    # the declared key mode has room for every lane of the document
+    if any(o["lane"]["tag"] != "absent" and o["lane"]["num"] > 4000 for o in scn["objs"]):
+        meta["Mode"] = "Keys7"
     text = concretize(scn, meta, style=scn["variant"] % 3)
     out = []
     rec = {"id": scn["id"] + "/read", "op": "read", "cls": "qua.read", "exc": "", "doc": tokens(text), "chart": {}}
